@@ -28,12 +28,21 @@ def lname(path):
 
 
 def translate():
+    """Regenerate the model of /repo's current sources.  When the translator cannot read them
+    (a shape it does not recognise, a probe that does not compile) the model cannot be regenerated
+    and NOTHING is shown for this tree: a stub is returned whose "failed" entry makes every
+    property's proof stage report an undischarged obligation (the correspondence run still
+    searches for a failing input) — not a tool error, which would hide a breaking change."""
+    import traceback
     import translate as tr
     with common.Lock("translate"):
         try:
             gen = tr.translate()
-        except Exception as ex:   # clang could not parse, probe did not compile, ...
-            raise ToolError("translator failed on the current tree: %s" % ex)
+        except Exception as ex:
+            tb = traceback.format_exc().strip().splitlines()
+            where = next((l.strip() for l in reversed(tb) if l.strip().startswith("File") and "translate" in l), "")
+            return {"failed": "%s: %s (%s)" % (type(ex).__name__, ex, where), "files": [], "utils": {"statics": [], "typed_sites": []},
+                    "source_hash": "untranslatable", "probe_per_header": {}}
     return gen
 
 
@@ -49,6 +58,15 @@ def proof_stage(rep, prop, imports, obligations, general_theorems, atoms_expr=No
     (per group, named atoms) evaluated executably to name failing atoms.
     Returns dict(failed_atoms=[(group, atom)], build_ok, build_log, axioms)."""
     gen = translate()
+    if gen.get("failed"):
+        rep.cov.setdefault("obligations", 0)
+        rep.cov["obligations"] += len(general_theorems) + len(obligations)
+        rep.cov.setdefault("discharged", 0)
+        rep.cov["checker_cmd"] = "(model of the current sources could not be regenerated)"
+        rep.cov["trusted_base"] = ["Lean 4.33.0 kernel"]
+        rep.cov["source_hash"] = gen["source_hash"]
+        return {"failed_atoms": [], "failed_theorems": ["current-sources-cannot-be-translated"], "build_ok": False,
+                "build_log": gen["failed"], "axioms": {}, "bad_axioms": [], "forbidden_hits": [], "gen": gen}
     mod = "O1722.Gen.Inst" + prop
     path = os.path.join(LEAN, "O1722", "Gen", "Inst%s.lean" % prop)
     src = ["/- REGENERATED instance obligations for %s — do not edit. -/" % prop]
